@@ -218,6 +218,94 @@ def explore_one(v: str, src: str, kind: str) -> dict:
 
 
 # --------------------------------------------------------------------------------------
+# coverage derived from the CODE: every `except` clause and every `raise <coded error>` site of the
+# package, and which of them (with which caught exception class) the exploration stream reached
+# --------------------------------------------------------------------------------------
+def scan_error_sites() -> dict:
+    """{'handlers': {site: {'file','line','body_line','classes'}}, 'raises': {site: {'file','line','code'}}}
+    site = '<file>:<function>:<line>'"""
+    import ast
+    pkg = REPO / 'elementpath'
+    handlers, raises = {}, {}
+
+    def names_of(t):
+        if t is None:
+            return ['<bare>']
+        if isinstance(t, ast.Tuple):
+            return [n for e in t.elts for n in names_of(e)]
+        return [ast.unparse(t).split('.')[-1]]
+
+    def visit(node, func, rel):
+        for child in ast.iter_child_nodes(node):
+            f2 = child.name if isinstance(child, (ast.FunctionDef, ast.AsyncFunctionDef)) else func
+            if isinstance(child, ast.ExceptHandler) and child.body:
+                site = f'{rel}:{func or "<module>"}:{child.lineno}'
+                handlers[site] = {'file': rel, 'line': child.lineno, 'body_line': child.body[0].lineno,
+                                  'classes': names_of(child.type)}
+            if isinstance(child, ast.Raise) and isinstance(child.exc, ast.Call):
+                fn = ast.unparse(child.exc.func)
+                last = fn.split('.')[-1]
+                if last in ('error', 'xpath_error', 'wrong_syntax', 'wrong_type', 'wrong_value', 'missing_context',
+                            'wrong_context_type', 'wrong_sequence_type', 'unknown_atomic_type',
+                            'unknown_namespace') or last.startswith('ElementPath') or last in (
+                            'MissingContextError', 'UnsupportedFeatureError', 'XMLResourceForbidden'):
+                    code = ''
+                    if child.exc.args and isinstance(child.exc.args[0], ast.Constant) and isinstance(child.exc.args[0].value, str):
+                        code = child.exc.args[0].value if last in ('error', 'xpath_error') else ''
+                    raises[f'{rel}:{func or "<module>"}:{child.lineno}'] = {'file': rel, 'line': child.lineno, 'code': code,
+                                                                          'call': last}
+            visit(child, f2, rel)
+
+    for path in sorted(pkg.rglob('*.py')):
+        rel = str(path.relative_to(pkg))
+        try:
+            visit(ast.parse(path.read_text()), None, rel)
+        except SyntaxError:
+            pass
+    return {'handlers': handlers, 'raises': raises}
+
+
+class SiteMonitor:
+    """sys.monitoring LINE events: records (handler site, class of the exception being handled) and raise
+    sites; every other line location is disabled after its first event, so the overhead vanishes"""
+
+    def __init__(self):
+        self.new: list[str] = []
+        self.seen: set = set()
+        sites = scan_error_sites()
+        pkg = str((REPO / 'elementpath').resolve())
+        self.hlines = {(f'{pkg}/{h["file"]}', h['body_line']): site for site, h in sites['handlers'].items()}
+        self.rlines = {(f'{pkg}/{r["file"]}', r['line']): site for site, r in sites['raises'].items()}
+        mon = sys.monitoring
+        self.tool = mon.PROFILER_ID
+        mon.use_tool_id(self.tool, 'c03-sites')
+        mon.register_callback(self.tool, mon.events.LINE, self.on_line)
+        mon.set_events(self.tool, mon.events.LINE)
+
+    def on_line(self, code, line):
+        key = (code.co_filename, line)
+        site = self.hlines.get(key)
+        if site is not None:
+            exc = sys.exception()
+            rec = f'H|{site}|{type(exc).__name__ if exc is not None else "?"}'
+            if rec not in self.seen:
+                self.seen.add(rec)
+                self.new.append(rec)
+            return None                       # stay enabled: another class may arrive later
+        site = self.rlines.get(key)
+        if site is not None:
+            rec = f'R|{site}'
+            if rec not in self.seen:
+                self.seen.add(rec)
+                self.new.append(rec)
+        return sys.monitoring.DISABLE
+
+    def drain(self) -> list[str]:
+        out, self.new = self.new, []
+        return out
+
+
+# --------------------------------------------------------------------------------------
 # worker process (so that a call that hangs inside C code can be killed)
 # --------------------------------------------------------------------------------------
 def worker_main() -> None:
@@ -235,6 +323,12 @@ def worker_main() -> None:
     out = os.fdopen(os.dup(1), 'w')
     os.dup2(devnull.fileno(), 1)          # fn:trace and friends print to stdout
     sys.stdout = devnull
+    monitor = None
+    if os.environ.get('C03_SITES', '1') == '1' and hasattr(sys, 'monitoring'):
+        try:
+            monitor = SiteMonitor()
+        except Exception:   # noqa  (tool id taken, ...): run without site coverage
+            monitor = None
     for line in sys.stdin:
         req = json.loads(line)
         try:
@@ -242,6 +336,8 @@ def worker_main() -> None:
         except BaseException as e:   # noqa
             res = {'v': req['v'], 's': req['s'], 'c': req['c'],
                    'steps': [('harness', f'ERR:OTHER:{type(e).__name__}', 'harness:' + str(e)[:100])]}
+        if monitor is not None:
+            res['hits'] = monitor.drain()
         out.write(json.dumps(res) + '\n')
         out.flush()
 
